@@ -68,7 +68,7 @@ func qcLit(n *bftsim.Net, blk, res idmap, q *lib.QuorumCertificate) string {
 }
 
 func evidenceCases(r *sim.Rng, count int, cw *sim.CaseWriter) {
-	powersets := [][]uint64{{100, 100, 100, 100}, {10, 20, 30, 40, 25}, {300, 100, 100, 100, 100, 100, 100}}
+	powersets := [][]uint64{{100, 100, 100, 100}, {10, 20, 30, 40, 25}, {300, 100, 100, 100, 100, 100, 100}, {50, 50, 50, 50, 50, 50, 50, 50, 50, 50, 50, 50}}
 	for c := 0; c < count; c++ {
 		powers := powersets[r.Intn(len(powersets))]
 		n, err := bftsim.New(powers, 7)
@@ -208,7 +208,7 @@ func evidenceCases(r *sim.Rng, count int, cw *sim.CaseWriter) {
 // under DIFFERENT signer sets (they accuse different validators), pieces about other payloads, invalid pieces. Observed: how many
 // pieces the collection kept and what the real ProcessDSE derives from it.
 func collectionCases(r *sim.Rng, count int, cw *sim.CaseWriter) {
-	powersets := [][]uint64{{100, 100, 100, 100}, {10, 20, 30, 40, 25}, {300, 100, 100, 100, 100, 100, 100}}
+	powersets := [][]uint64{{100, 100, 100, 100}, {10, 20, 30, 40, 25}, {300, 100, 100, 100, 100, 100, 100}, {50, 50, 50, 50, 50, 50, 50, 50, 50, 50, 50, 50}}
 	for c := 0; c < count; c++ {
 		powers := powersets[r.Intn(len(powersets))]
 		n, err := bftsim.New(powers, 7)
